@@ -381,15 +381,16 @@ class SumCut:
                 tgt = key
             groups[tgt][1].append((c, a))
         ng = len(groups)
-        if ng <= 1:
+        if ng <= 1 and not any(len(gi) > 1 and len(gs) > 1 for gi, gs in groups.values()):
             return False
 
         def tot(lst, abstract):
             ts = [(rv(c) * (self._ab(a) if abstract else _real(a)) if a is not None else rv(c)) for c, a in lst]
             return z3.Sum(ts) if len(ts) > 1 else (ts[0] if ts else z3.RealVal(0))
         abs_lemmas = []
-        for key, (gi, gs) in groups.items():
-            lem = within(tot(gi, False) - tot(gs, False), Fraction(self.tol) / ng)
+
+        def prove_lemma(gi, gs, tol):
+            lem = within(tot(gi, False) - tot(gs, False), tol)
             I.solver.push()
             I.solver.add(z3.Not(lem))
             t0 = time.time()
@@ -397,13 +398,79 @@ class SumCut:
             res["solver_s"] += time.time() - t0
             mdl = I.solver.model() if r == z3.sat else None
             I.solver.pop()
-            if r != z3.unsat:
+            return r == z3.unsat, mdl
+        for key, (gi, gs) in groups.items():
+            if len(gi) > 1 and len(gs) > 1:
+                # several addends over the same variables on both sides (e.g. one entropy term per alphabet letter):
+                # bucket them by a numeric fingerprint (values under a few concrete assignments) and prove each bucket
+                # as its own small lemma; whatever does not pair up forms one residual bucket
+                buckets = self._buckets(key, gi, gs)
+                if buckets is not None and len(buckets) > 1:
+                    okall = True
+                    tol1 = Fraction(self.tol) / ng / len(buckets)
+                    for bi, bs in buckets:
+                        ok, mdl = prove_lemma(bi, bs, tol1)
+                        if not ok:
+                            okall = False
+                            break
+                        self.nlemmas += 1
+                        abs_lemmas.append(within(tot(bi, True) - tot(bs, True), tol1))
+                    if okall:
+                        continue
+                    self.nlemmas = max(0, self.nlemmas)
+            ok, mdl = prove_lemma(gi, gs, Fraction(self.tol) / ng)
+            if not ok:
                 self.failed_model = mdl
                 return False
             self.nlemmas += 1
             abs_lemmas.append(within(tot(gi, True) - tot(gs, True), Fraction(self.tol) / ng))
         self.abs_lemmas = abs_lemmas
         return True
+
+    def _buckets(self, key, gi, gs):
+        import random as _r
+        names = sorted(key)
+        if not names:
+            return None
+        rng = _r.Random(len(names) * 7919 + len(gi))
+        probes = []
+        for _ in range(3):
+            probes.append([(z3.Int(n), z3.IntVal(rng.randrange(0, 20))) for n in names])
+        for l in range(20):
+            # structured probes: alternate value l and l+1 over the variables, so that addends keyed to one input value differ
+            probes.append([(z3.Int(n), z3.IntVal(l if i % 2 == 0 else (l + 1) % 20)) for i, n in enumerate(names)])
+
+        def fp(c, a):
+            out = []
+            for pr in probes:
+                v = z3.simplify(z3.substitute(_real(a), *pr)) if a is not None else z3.RealVal(1)
+                if not z3.is_rational_value(v) and not z3.is_int_value(v):
+                    return None
+                fr = Fraction(v.as_long()) if z3.is_int_value(v) else v.as_fraction()
+                out.append(round(float(c * fr), 10))
+            return tuple(out)
+        bi, bs = {}, {}
+        for c, a in gi:
+            f = fp(c, a)
+            if f is None:
+                return None
+            bi.setdefault(f, []).append((c, a))
+        for c, a in gs:
+            f = fp(c, a)
+            if f is None:
+                return None
+            bs.setdefault(f, []).append((c, a))
+        out = []
+        ri, rs = [], []
+        for f in set(bi) | set(bs):
+            if f in bi and f in bs:
+                out.append((bi[f], bs[f]))
+            else:
+                ri += bi.get(f, [])
+                rs += bs.get(f, [])
+        if ri or rs:
+            out.append((ri, rs))
+        return out
 
     def derive(self, claim, label, cex, extra_abs=()):
         """prove `claim` from the proved lemmas with the addend atoms abstracted to fresh reals; falls back to the
